@@ -145,6 +145,7 @@ structure Ctx where
   moving : List Nat := []
   addedIdx : List Nat := []
   addedAtoms : List Row := []
+  addedSizes : List Nat := []        -- atoms of each particle inserted by the trial, in the order of `addedIdx`
   deletedIdx : List Nat := []
   deletedAtoms : List Row := []
   delta : Int := 0
@@ -298,7 +299,8 @@ def clearExch (s : State) (r : Nat) : State :=
 
 /-- `context._added_indices = hstack(...)`, `context._added_atoms += atoms[indices]`, `particle_delta += 1` -/
 def recordAdded (c : Ctx) (idx : List Nat) (rows : List Row) : Ctx :=
-  { c with addedIdx := c.addedIdx ++ idx, addedAtoms := c.addedAtoms ++ pick rows idx, delta := c.delta + 1 }
+  { c with addedIdx := c.addedIdx ++ idx, addedAtoms := c.addedAtoms ++ pick rows idx,
+           addedSizes := c.addedSizes ++ [idx.length], delta := c.delta + 1 }
 
 /-- the same for a deletion (`save_constraints()` first), before `del atoms[indices]` -/
 def recordDeleted (c : Ctx) (a : AtomsS) (idx : List Nat) : Ctx :=
@@ -488,6 +490,14 @@ def notifyRefs : List Nat → List Nat → List Nat → List MoveObj → List Mo
     let h1 := if labelBearing m.kind then h.set r (onAtomsChangedObj m added removed) else h
     notifyRefs rs added removed h1
 
+/-- `GrandCanonical.save_state`: one notification per inserted particle (`added[start : start + size]` for every recorded
+    size but the last), the rest of the added indices together with the deleted ones in the last notification -/
+def notifyParts (refs : List Nat) : List Nat → List Nat → List Nat → List MoveObj → List MoveObj
+  | [], added, removed, h => notifyRefs refs added removed h
+  | [_], added, removed, h => notifyRefs refs added removed h
+  | n :: m :: ns, added, removed, h =>
+    notifyParts refs (m :: ns) (added.drop n) removed (notifyRefs refs (added.take n) [] h)
+
 /-- the elementary move objects behind a table entry. The grand-canonical driver notifies every distinct
     object reachable from the table exactly once (identity de-duplication, see the `fix:` commits for C05). -/
 def Tree.refs : Tree → List Nat
@@ -521,7 +531,7 @@ def ctxSave (ens : Ensemble) (s : State) : State :=
   let c2 := match ens with
     | .hamiltonian => { c1 with lastMom := momenta s.atoms.rows }
     | .isobaric => { c1 with lastCell := s.atoms.cell }
-    | .grand => { c1 with nExch := c1.nExch + c1.delta, addedIdx := [], addedAtoms := [], deletedIdx := [],
+    | .grand => { c1 with nExch := c1.nExch + c1.delta, addedIdx := [], addedAtoms := [], addedSizes := [], deletedIdx := [],
                           deletedAtoms := [], delta := 0, moving := [], savedFixed := none }
     | _ => c1
   { s with ctx := c2 }
@@ -532,7 +542,7 @@ def saveState (sim : Sim) (s : State) : State :=
   | .base => s
   | .grand =>
     let refs := ((sim.table.map (fun e => e.tree.refs)).flatten).eraseDups
-    ctxSave .grand { s with heap := notifyRefs refs s.ctx.addedIdx s.ctx.deletedIdx s.heap }
+    ctxSave .grand { s with heap := notifyParts refs s.ctx.addedSizes s.ctx.addedIdx s.ctx.deletedIdx s.heap }
   | e => ctxSave e s
 
 /-- `revert_state()` of the driver -/
@@ -550,7 +560,7 @@ def revertState (sim : Sim) (s : State) : State :=
     let rows2 := if c.deletedIdx.isEmpty then a1.rows else reinsert a1.rows c.deletedAtoms c.deletedIdx
     let fixed2 := if c.deletedIdx.isEmpty then a1.fixed else (c.savedFixed.getD a1.fixed)
     { s with atoms := { a1 with rows := setPositions rows2 c.lastPos, fixed := fixed2 },
-             ctx := { c with addedIdx := [], addedAtoms := [], deletedIdx := [], deletedAtoms := [],
+             ctx := { c with addedIdx := [], addedAtoms := [], addedSizes := [], deletedIdx := [], deletedAtoms := [],
                              delta := 0, moving := [], savedFixed := none } }
 
 inductive Outcome | accepted | rejected | failed
